@@ -206,9 +206,9 @@ func (c C04) Execute(sc *drv.Scenario, w *drv.World) (*drv.Violation, error) {
 		return nil, err
 	}
 	rr := &c04Runner{w: ref, x: NewKVExec(ref)}
-	var snaps []*Snapshot    // snaps[i] = snapshot after step i (index from Fixed-1)
-	var writesAfter []int    // cumulative writes after step i
-	var wlabels [][]string   // write labels of step i
+	var snaps []*Snapshot  // snaps[i] = snapshot after step i (index from Fixed-1)
+	var writesAfter []int  // cumulative writes after step i
+	var wlabels [][]string // write labels of step i
 	for i, op := range sc.Steps {
 		if _, err := rr.apply(op); err != nil {
 			return nil, err
